@@ -11,6 +11,15 @@ _ODE_NOTE = ("the strict C reader is trusted for the statement shapes it accepts
 _ODE_TECH = ("TLA+ spec OdeGen.tla model-checked with TLC over all small networks; TLC-chosen and random networks rendered by the real "
              "generator for dense/sparse/cusparse/odeint, read back with a strict C reader and validated event by event by Trace_OdeGen.tla")
 CHECKS = {
+    "C17": dict(level="model_checking", design_ref="DESIGN.md §4 C17, §11",
+        technique="TLA+ spec Globals.tla (installed-context model of the process-global tables) model-checked with TLC; TLC-simulated "
+                  "interleavings of operations on two networks replayed each in one fresh Python process; every render compared with "
+                  "a fresh-process render of that network's own description under three hash seeds; judged by Trace_Globals.tla",
+        text="TLC explores all interleavings (depth 7) of New/Parse/Edit/Render on two networks for three context assignments and checks "
+             "NonInterference; the interleavings are replayed on real networks (custom upper-case lists, ortho/para lists, default lists, "
+             "KROME directives, aborting reads) and TLC requires: whenever the model says network n only ever saw its own context, its "
+             "rendered tree equals the fresh-process tree, repeated renders are identical and hash seeds do not matter.",
+        note="a fresh process rendering the projection of a network's own mutating operations defines 'the network description'"),
     "C01": dict(level="model_checking", design_ref="DESIGN.md §4 C01, §11", technique=_ODE_TECH, note=_ODE_NOTE,
         text="TLC checks RhsIsMassAction/UnreactiveIsZero on the accumulation algorithm for every network in the bound; for every rendered "
              "network and back-end each reaction's emitted terms must equal, as a polynomial over slots with symbolic rate coefficients, "
